@@ -406,6 +406,13 @@ class Report:
         # evaluations of seeded / benign patches (VERIF_EVIDENCE_DIR set) must not overwrite the evidence of /repo itself
         ev_dir = os.environ.get("VERIF_EVIDENCE_DIR") or os.path.join(VERIF, "evidence")
         os.makedirs(ev_dir, exist_ok=True)
+        try:
+            import drive as _drive
+            for st in _drive.STUCK[:2]:
+                self.violation(st["what"], st["context"], key="rejected_assignment")
+            del _drive.STUCK[:]
+        except ImportError:
+            pass
         n_obl = len(self.obligations)
         n_ok = sum(1 for _, ok, _ in self.obligations if ok)
         broken = [(n, d) for n, ok, d in self.obligations if not ok]
